@@ -4,6 +4,7 @@ import OutlineModel.Drive.UDP
 import OutlineModel.Drive.NatConn
 import OutlineModel.Drive.Auth
 import OutlineModel.Drive.Conc
+import OutlineModel.Drive.TCP
 /- Model driver: one op per line on stdin, one result per line on stdout.
    First word selects the engine.  Core only (no Mathlib) so it links as a lean_exe. -/
 open OutlineModel
@@ -13,12 +14,14 @@ structure St where
   udp : Drive.UDP.St := Drive.UDP.init
   nc : Drive.NatConn.St := {}
   auth : Drive.Auth.St := {}
+  tcp : Drive.TCP.St := {}
 
 def stepLine (st : St) (line : String) : St × String :=
   match (line.trimAscii.toString.splitOn " ").filter (· ≠ "") with
   | "replay" :: args => let (s, o) := Drive.Replay.step st.replay args; ({ st with replay := s }, o)
   | "udp" :: args => let (s, o) := Drive.UDP.step st.udp args; ({ st with udp := s }, o)
   | "auth" :: args => let (s, o) := Drive.Auth.step st.auth args; ({ st with auth := s }, o)
+  | "tcp" :: args => let (s, o) := Drive.TCP.step st.tcp args; ({ st with tcp := s }, o)
   | "conc" :: args => (st, Drive.Conc.step args)
   | "locks" :: args => (st, Drive.Conc.stepLocks args)
   | "nc" :: args => let (s, o) := Drive.NatConn.step st.nc args; ({ st with nc := s }, o)
